@@ -24,7 +24,7 @@ printf '\nreplace github.com/looplab/fsm => %s/fsm\n' "$S" >> "$S/repo/go.mod"
 [ -x "$V/bin/simrewrite" ] || ( cd "$V/tools/simrewrite" && $GO build -o "$V/bin/simrewrite" . )
 SIMOS=""
 ( cd "$S/fsm" && "$V/bin/simrewrite" -dir "$S/fsm" -race-points=false . )
-( cd "$S/repo" && "$V/bin/simrewrite" -dir "$S/repo" -simos executor/executable \
+( cd "$S/repo" && "$V/bin/simrewrite" -dir "$S/repo" -simos executor/executable,executor/executorcmd \
     ./core/... ./common/... ./configuration/... ./apricot/... ./executor/... )
 # module file for building the harnesses in /verif against the instrumented copies
 sed -e "s#^replace github.com/AliceO2Group/Control => .*#replace github.com/AliceO2Group/Control => $S/repo#" \
